@@ -202,13 +202,13 @@ Fixpoint set_delta_dirs (o : obj) (dirs : list nat) (x : T) (next : nat) : obj *
                 | (o1, e) => (o1, e)
                 end
   end.
-(* sample_size setters: delta = (stop - start) / n per direction; a missing knot vector / degree 0 only warns *)
+(* sample_size setters: delta = 1 / n per direction (as repaired in /repo 2a3e060; equal to (stop - start) / n on the
+   normalised clamped knot vectors); a missing knot vector / degree 0 only warns *)
 Fixpoint set_sample_dirs (o : obj) (dirs : list nat) (n : nat) (next : nat) : obj * res out :=
   match dirs with
   | [] => (o, Ok ONone)
   | dir :: r =>
-    let d := o_def o in
-    match set_delta1 o dir ((kv_stop d dir - kv_start d dir) / ofnat K n) next with
+    match set_delta1 o dir (o1 K / ofnat K n) next with
     | (o1, Ok _) => set_sample_dirs o1 r n next
     | (o1, e) => (o1, e)
     end
